@@ -1612,10 +1612,12 @@ func (f *File) WriteTo(w io.Writer) (written int64, err error) {
 			return written, errors.New("sftp.File.WriteTo: unexpectedly closed channel")
 		}
 
-		// Because writes are serialized, this will always be the last successfully read byte.
-		f.offset = packet.off + int64(len(packet.b))
-
 		if len(packet.b) > 0 {
+			// Because writes are serialized, this will always be the last successfully read byte.
+			// (A packet without data, i.e. the EOF status of a chunk requested past the end of the file,
+			// must not move the offset: its request offset lies beyond the last byte that was read.)
+			f.offset = packet.off + int64(len(packet.b))
+
 			n, err := w.Write(packet.b)
 			written += int64(n)
 			if err != nil {
